@@ -1514,7 +1514,7 @@ def parts(tier):
             name="invalid_rand",
             evaluate=evaluate_invalid,
             strategy=strategy_invalid,
-            budget={"quick": 300, "thorough": 20000},
+            budget={"quick": 300, "thorough": 60000},
             shards={"quick": 1, "thorough": 4},
             min_nontrivial={"quick": 60, "thorough": 4000},
         ),
@@ -1522,7 +1522,7 @@ def parts(tier):
             name="single",
             evaluate=evaluate_single,
             strategy=strategy_single,
-            budget={"quick": 500, "thorough": 16000},
+            budget={"quick": 500, "thorough": 48000},
             shards={"quick": 1, "thorough": 16},
             min_nontrivial={"quick": 100, "thorough": 3000},
         ),
@@ -1530,7 +1530,7 @@ def parts(tier):
             name="train",
             evaluate=evaluate_train,
             strategy=strategy_train,
-            budget={"quick": 120, "thorough": 6000},
+            budget={"quick": 120, "thorough": 18000},
             shards={"quick": 1, "thorough": 16},
             min_nontrivial={"quick": 35, "thorough": 1500},
         ),
@@ -1538,7 +1538,7 @@ def parts(tier):
             name="normalise",
             evaluate=evaluate_normalise,
             strategy=strategy_normalise,
-            budget={"quick": 90, "thorough": 6000},
+            budget={"quick": 90, "thorough": 18000},
             shards={"quick": 1, "thorough": 16},
             min_nontrivial={"quick": 25, "thorough": 1500},
         ),
